@@ -248,6 +248,16 @@ func implGslb(hdr hv.L, ops hv.L) hv.Val {
 		}
 		return l
 	}
+	gstateW := func() hv.Val {
+		names, weights, brrs := bal_gslb.VerifC09Subs(bal)
+		l := hv.L{}
+		for i, r := range brrs {
+			var n int
+			fmt.Sscanf(names[i], "s%d", &n)
+			l = append(l, hv.L{hv.I(n), hv.I(weights[i]), state(r)})
+		}
+		return l
+	}
 	findB := func(id int) *backend.BfeBackend {
 		bs, _ := all()
 		for _, b := range bs {
@@ -304,6 +314,22 @@ func implGslb(hdr hv.L, ops hv.L) hv.Val {
 			if !returned {
 				return out
 			}
+		case 7: // BalanceGslb.Reload
+			g := gslb_conf.GslbClusterConf{}
+			for _, e := range hv.AsList(op[1]) {
+				p := hv.AsList(e)
+				g[fmt.Sprintf("s%d", hv.AsInt(p[0]))] = int(hv.AsInt(p[1]))
+			}
+			err := bal.Reload(g)
+			out = append(out, hv.L{hv.Bool(err != nil), gstateW()})
+		case 8: // BalanceGslb.BackendReload
+			cbr := cluster_table_conf.ClusterBackend{}
+			for _, e := range hv.AsList(op[1]) {
+				p := hv.AsList(e)
+				cbr[fmt.Sprintf("s%d", hv.AsInt(p[0]))] = mkConf(p[1])
+			}
+			bal.BackendReload(cbr)
+			out = append(out, hv.L{hv.I(0), gstateW()})
 		case 2:
 			if b := findB(int(hv.AsInt(op[1]))); b != nil {
 				b.SetAvail(hv.AsInt(op[2]) != 0)
@@ -440,55 +466,171 @@ func genFlips(r *hv.Rng, ids []int) hv.L {
 	return flips
 }
 
-// a BalanceGslb cluster: 1-3 sub-clusters, at most two of weight >= 0 (one cross-retry candidate), total weight > 0
+// a BalanceGslb cluster: 1-3 sub-clusters, at most two of weight >= 0 (one cross-retry candidate), total weight > 0,
+// with a history of Balance / SetAvail / conn changes / Reload (accepted and rejected) / BackendReload.
+// The generator mirrors names, weights and backend ids to stay inside the modelled fragment.
 func genGslb(r *hv.Rng) (string, hv.Val) {
+	wpick := func() int { return []int{-1, 0, 1, 1, 2, 3}[r.Intn(6)] }
 	names := perm(r, 4)
 	nsub := r.Range(1, 3)
-	ws := make([]int, nsub)
+	weight := map[int]int{}
 	for {
 		nonneg, total := 0, 0
-		for k := range ws {
-			ws[k] = []int{-1, 0, 1, 1, 2, 3}[r.Intn(6)]
-			if ws[k] >= 0 {
+		for k := 0; k < nsub; k++ {
+			w := wpick()
+			weight[names[k]] = w
+			if w >= 0 {
 				nonneg++
 			}
-			if ws[k] > 0 {
-				total += ws[k]
+			if w > 0 {
+				total += w
 			}
 		}
 		if total > 0 && nonneg <= 2 {
 			break
 		}
 	}
-	ids := perm(r, 10)
-	var all []int
+	pool := perm(r, 30) // backend ids, each used at most once
+	ids := map[int][]int{}
 	subs := hv.L{}
 	for k := 0; k < nsub; k++ {
 		conf := hv.L{}
-		for n := r.Intn(4); n > 0 && len(all) < 10; n-- {
-			id := ids[len(all)]
-			all = append(all, id)
+		for n := r.Intn(4); n > 0; n-- {
+			id := pool[0]
+			pool = pool[1:]
+			ids[names[k]] = append(ids[names[k]], id)
 			conf = append(conf, hv.L{hv.I(id), hv.I([]int{-1, 0, 1, 1, 2}[r.Intn(5)])})
 		}
-		subs = append(subs, hv.L{hv.I(names[k]), hv.I(ws[k]), conf})
+		subs = append(subs, hv.L{hv.I(names[k]), hv.I(weight[names[k]]), conf})
+	}
+	allIDs := func() []int {
+		var l []int
+		for n := 0; n < 4; n++ {
+			if _, ok := weight[n]; ok {
+				l = append(l, ids[n]...)
+			}
+		}
+		return l
 	}
 	rmax, cross := r.Intn(3), r.Intn(3)
 	ops := hv.L{}
 	class := "gslb"
-	for n := r.Range(1, 10); n > 0; n-- {
-		switch c := r.Intn(20); {
-		case c < 13:
+	for n := r.Range(1, 12); n > 0; n-- {
+		switch c := r.Intn(24); {
+		case c < 12:
 			flips := hv.L{}
-			if len(all) > 0 && r.Chance(1, 2) {
+			if all := allIDs(); len(all) > 0 && r.Chance(1, 2) {
 				flips = genFlips(r, all)
-				class = "gslb-flips"
+				if class == "gslb" {
+					class = "gslb-flips"
+				}
 			}
 			ops = append(ops, hv.L{hv.I(6), hv.I([]int{1, 1, 2, 4}[r.Intn(4)]), hv.I(r.Intn(rmax + cross + 2)),
 				hv.B(r.Bytes(r.Range(1, 5))), flips})
-		case c < 18:
-			ops = append(ops, hv.L{hv.I(2), hv.I(r.Intn(10)), hv.Bool(r.Chance(1, 3))})
-		default:
-			ops = append(ops, hv.L{hv.I(3), hv.I(r.Intn(10)), hv.I(r.Range(-1, 2))})
+		case c < 16:
+			ops = append(ops, hv.L{hv.I(2), hv.I(r.Intn(30)), hv.Bool(r.Chance(1, 3))})
+		case c < 17:
+			ops = append(ops, hv.L{hv.I(3), hv.I(r.Intn(30)), hv.I(r.Range(-1, 2))})
+		case c < 21: // Reload; a quarter of them all-zero / non-positive (rejected: weights are overwritten in place)
+			for try := 0; try < 6; try++ {
+				conf := map[int]int{}
+				zero := r.Chance(1, 4)
+				for nm := range [4]int{} {
+					if _, ok := weight[nm]; ok {
+						if r.Chance(4, 5) {
+							conf[nm] = weight[nm]
+							if r.Chance(1, 2) {
+								conf[nm] = wpick()
+							}
+						}
+					} else if r.Chance(1, 4) {
+						conf[nm] = wpick()
+					}
+				}
+				if zero {
+					for nm := range conf {
+						if conf[nm] > 0 {
+							conf[nm] = -r.Intn(2)
+						}
+					}
+				}
+				if len(conf) == 0 {
+					continue
+				}
+				total := 0
+				for _, w := range conf {
+					if w > 0 {
+						total += w
+					}
+				}
+				// mirror of Reload
+				next := map[int]int{}
+				if total == 0 {
+					for nm, w := range weight {
+						next[nm] = w
+						if cw, ok := conf[nm]; ok {
+							next[nm] = cw
+						}
+					}
+				} else {
+					for nm, w := range conf {
+						next[nm] = w
+					}
+				}
+				nonneg := 0
+				for _, w := range next {
+					if w >= 0 {
+						nonneg++
+					}
+				}
+				if nonneg > 2 {
+					continue
+				}
+				weight = next
+				for nm := 0; nm < 4; nm++ {
+					if _, ok := weight[nm]; !ok {
+						delete(ids, nm)
+					}
+				}
+				g := hv.L{}
+				for _, nm := range perm(r, 4) {
+					if w, ok := conf[nm]; ok {
+						g = append(g, hv.L{hv.I(nm), hv.I(w)})
+					}
+				}
+				ops = append(ops, hv.L{hv.I(7), g})
+				if total == 0 {
+					class = "gslb-rejected-reload"
+				} else if class != "gslb-rejected-reload" {
+					class = "gslb-reload"
+				}
+				break
+			}
+		default: // BackendReload of some sub-clusters: drop / reweigh backends, at most one new per sub-cluster
+			cb := hv.L{}
+			for nm := 0; nm < 4; nm++ {
+				if _, ok := weight[nm]; !ok || r.Chance(1, 2) {
+					continue
+				}
+				conf := hv.L{}
+				var keep []int
+				for _, id := range ids[nm] {
+					if r.Chance(1, 5) {
+						continue
+					}
+					keep = append(keep, id)
+					conf = append(conf, hv.L{hv.I(id), hv.I([]int{-1, 0, 1, 1, 2}[r.Intn(5)])})
+				}
+				if r.Chance(1, 2) && len(pool) > 0 {
+					id := pool[0]
+					pool = pool[1:]
+					keep = append(keep, id)
+					conf = append(conf, hv.L{hv.I(id), hv.I(r.Range(0, 2))})
+				}
+				ids[nm] = keep
+				cb = append(cb, hv.L{hv.I(nm), conf})
+			}
+			ops = append(ops, hv.L{hv.I(8), cb})
 		}
 	}
 	return class, hv.L{hv.L{hv.I(7), subs, hv.I(rmax), hv.I(cross)}, ops}
